@@ -115,7 +115,7 @@ Section Total.
 
   Lemma TInv_seen s w used' cnt' :
     TInv s ->
-    TInv (mkF (f_vx s) (f_nx s) (f_rv s) (f_rn s) (f_vn s) (f_nn s) (f_inits s) (w :: f_seen s) cnt' (f_ncnt s)
+    TInv (mkF (f_own s) (f_so s) (f_vx s) (f_nx s) (f_rv s) (f_rn s) (f_vn s) (f_nn s) (f_inits s) (w :: f_seen s) cnt' (f_ncnt s)
               used' (f_nscopes s) (f_mod s)).
   Proof.
     intros [A B C D F G H]. constructor; simpl; try assumption.
@@ -233,11 +233,22 @@ Section Total.
         rewrite upd_other by assumption. apply G. intros X. apply Hw. right. exact X.
   Qed.
 
+  Lemma TInv_record v s : TInv s -> TInv (record_captured v s).
+  Proof. intros [A B C D F G H]. constructor; simpl; assumption. Qed.
+
+  Lemma process_value_rec_good w : closed_val w -> good (process_value_rec w).
+  Proof.
+    intros Hc s T. destruct (process_value_good w Hc s T) as [A B].
+    rewrite process_value_rec_err. split; [exact A|]. intros Eok. specialize (B Eok).
+    unfold process_value_rec, fbind. destruct (process_value w s) as [s1 e1]. simpl in *. subst e1. simpl.
+    destruct (negb (memN w (f_seen s))); [apply TInv_record; exact B | exact B].
+  Qed.
+
   Lemma process_values_good ws : Forall closed_val ws -> good (process_values ws).
   Proof.
     induction 1 as [|w r Hw _ IH]; simpl.
     - intros s T. simpl. split; [discriminate | intros _; exact T].
-    - apply (good_bind (process_value w) (process_values r)); [apply process_value_good; exact Hw | exact IH].
+    - apply (good_bind (process_value_rec w) (process_values r)); [apply process_value_rec_good; exact Hw | exact IH].
   Qed.
 
   Lemma process_node_name_good m : good (process_node_name m).
@@ -261,7 +272,7 @@ Section Total.
     destruct e as [gid isfunc ins outs| |nid nins nouts]; simpl; intros Hc.
     - intros s T. simpl. destruct (f_vscopes s) as [|top rest] eqn:Hsc; [simpl; split; discriminate|].
       destruct Hc as [Hio HgE]. apply Forall_app in Hio. destruct Hio as [Hi Ho].
-      set (s1 := mkF (f_vx s) (f_nx s) (f_rv s) (f_rn s) (f_vn s) (f_nn s) (f_inits s) (f_seen s) (f_vcnt s) (f_ncnt s)
+      set (s1 := mkF (f_own s) (gid :: f_so s) (f_vx s) (f_nx s) (f_rv s) (f_rn s) (f_vn s) (f_nn s) (f_inits s) (f_seen s) (f_vcnt s) (f_ncnt s)
                      (top :: top :: rest) ([] :: f_nscopes s) (f_mod s)).
       assert (T1 : TInv s1) by (destruct T as [A B C D F G H]; constructor; simpl; assumption).
       revert T1. generalize s1. clear s1.
